@@ -71,6 +71,8 @@ class ExprMixin:
             return VList(ref)
         if ty in ("opaque", "map", "cache", "optlist"):
             return VObj(name, "<" + ty + ">")
+        if ty == "optopaque":
+            return VOpt(z3.Bool(name + "?none"), VObj(name, "<opaque>"))
         raise Unsupported(f"type {ty}")
 
     def assume_axiom(self, c):
@@ -138,7 +140,8 @@ class ExprMixin:
             return z3.BoolVal(len(v.items) > 0)
         if isinstance(v, (VObj, VFunc, VElem)):
             if isinstance(v, VObj) and v.cls.startswith("<"):
-                raise Unsupported(f"truthiness of opaque {v.ref}")
+                # an opaque value (regex, match object, env entry ...): unknown but fixed truthiness
+                return z3.Bool(f"truth({v.ref})")
             return z3.BoolVal(True)
         if isinstance(v, VSeqZ):
             return z3.Length(v.t) > 0
@@ -230,7 +233,7 @@ class ExprMixin:
             try:
                 lit = ast.literal_eval(node)
             except Exception:
-                return VFunc("global", dotted)
+                return VObj("global:" + dotted, "<opaque>")
             return self.lift_literal(lit)
         raise Unsupported(f"global {dotted}")
 
@@ -575,6 +578,16 @@ class ExprMixin:
         return self.index_special(base, idx, node, fr)
 
     def index_special(self, base, idx, node, fr):
+        if isinstance(base, VOpt):
+            self.safe_or_raise(z3.Not(base.isnone), "TypeError", node, fr, "subscript")
+            return self.index(base.some, idx, node, fr)
+        if isinstance(base, VObj) and base.cls == "<opaque>":
+            it = z3.simplify(self.as_int(idx)) if isinstance(idx, (VInt, VBool)) else None
+            tag = str(it) if it is not None else (repr(idx.a) if isinstance(idx, VStr) and idx.kind == "lit" else None)
+            if tag is None:
+                raise Unsupported("opaque subscript with symbolic key")
+            self.assumption_log.add(f"subscript of opaque value {base.ref.split('#')[0]} assumed not to raise")
+            return VObj(f"{base.ref}[{tag}]", "<opaque>")
         raise Unsupported(f"subscript of {base!r}")
 
     def do_slice(self, base, sl: ast.Slice, node, fr):
